@@ -226,6 +226,22 @@ theorem seeded_line_zero : ∀ d : Bool,
       some (some ⟨"core.BltInstruction", [.reg ⟨0, 0⟩, .reg ⟨0, 2⟩, .imm 0]⟩, 9) := by
   decide +kernel
 
+/-- the program of seeded change C08_20: a branch to the label BEHIND a trailing `ret_reg`. By
+`branch_lands_on_expansion` (case `t = len S`: `serialise out = pre ++ [pad]`) the padding is the LAST
+instruction, so a taken branch skips the return block as the vanilla run does; here: the `bez` targets
+the last position, which holds the padding, and `ret_reg R1` sits right before it (both debug settings).
+A pass that put the padding in front of the return block would contradict that theorem. -/
+theorem seeded_end_label_behind_return_block : ∀ d : Bool,
+    let S : List Instr := [
+      ⟨"core.SetInstruction", [.reg ⟨0, 2⟩, .imm 0]⟩, ⟨"core.SetInstruction", [.reg ⟨0, 1⟩, .imm 5]⟩,
+      ⟨"core.BezInstruction", [.reg ⟨0, 2⟩, .imm 5]⟩,
+      ⟨"core.SetInstruction", [.reg ⟨0, 1⟩, .imm 7]⟩,
+      ⟨"core.RetRegInstruction", [.reg ⟨0, 1⟩]⟩]
+    (transpile (Gen.cfg d false) S).toOption.map (fun o => (o[2]?, o[4]?, o[5]?, o.length)) =
+      some (some ⟨"core.BezInstruction", [.reg ⟨0, 2⟩, .imm 5]⟩,
+            some ⟨"core.RetRegInstruction", [.reg ⟨0, 1⟩]⟩, some (Gen.cfg d false).pad, 6) := by
+  decide +kernel
+
 /-- **Non-gate instructions appear exactly once and in order**: erasing the chunks that come from
 gates from the output chunks, and the gates from the input, gives equal lists up to the target
 patching `patchOf`. -/
